@@ -206,6 +206,14 @@ func ruleC16EscapeSet(c *Ctx) {
 				W[int64(o[0])] = n
 			}
 		}
+		// one pass of a constant strings.Replacer: every pair neutralises its character
+		if pairs, _, isR := replacerPairs(call); isR {
+			for _, pr := range pairs {
+				if len(pr[0]) == 1 {
+					W[int64(pr[0][0])] = pr[1]
+				}
+			}
+		}
 	})
 	allInstrs(qs, func(_ *ssa.BasicBlock, in ssa.Instruction) {
 		if r, ok := in.(*ssa.Return); ok {
@@ -239,6 +247,14 @@ func ruleC16EscapeSet(c *Ctx) {
 					n, _ := constString(x.Common().Args[2])
 					chain = append(chain, repl{o, n})
 					walk(x.Common().Args[0], d+1)
+				}
+				if pairs, inner, isR := replacerPairs(x); isR {
+					// substituted in one pass: what a pair produces is not looked at again, so the pairs do not interact;
+					// they are listed with an output that no other pair can rewrite
+					for _, pr := range pairs {
+						chain = append(chain, repl{pr[0], ""})
+					}
+					walk(inner, d+1)
 				}
 			}
 		}
@@ -626,6 +642,9 @@ func ruleC16Pure(c *Ctx) {
 		allInstrs(g, func(_ *ssa.BasicBlock, in ssa.Instruction) {
 			for _, op := range in.Operands(nil) {
 				if gl, ok := (*op).(*ssa.Global); ok && gl.Pkg != nil && strings.HasPrefix(gl.Pkg.Pkg.Path(), modPath) {
+					if constObjectOf(gl) != nil {
+						continue // a replacer / pattern built once by the package initialiser: a constant of the program
+					}
 					bad = fmt.Sprintf("%s uses the package-level variable %s at %s", c.P.funcKey(g), gl.Name(), c.P.Pos(in.Pos()))
 				}
 			}
